@@ -108,6 +108,34 @@ InstId find_instruction(const char* s, size_t len, const uint32_t* name_table, c
   return BaseInst::kIdNone;
 }
 
+InstId find_instruction_unordered(const char* s, size_t len, const uint32_t* name_table, const char* string_table, const InstNameIndex& name_index) noexcept {
+  ASMJIT_ASSERT(s != nullptr);
+  ASMJIT_ASSERT(len > 0u);
+
+  uint32_t prefix = uint32_t(s[0]) - uint32_t('a');
+  if (ASMJIT_UNLIKELY(prefix > uint32_t('z') - uint32_t('a'))) {
+    return BaseInst::kIdNone;
+  }
+
+  size_t base = name_index.data[prefix].start;
+  size_t end = name_index.data[prefix].end;
+
+  if (ASMJIT_UNLIKELY(!base)) {
+    return BaseInst::kIdNone;
+  }
+
+  // The span [base, end) contains every instruction that starts with the given letter, but instruction ids in it are
+  // not ordered by name (it can even contain instructions that start with a different letter), so it cannot be bisected.
+  char name_data[kBufferSize];
+  for (size_t inst_id = base; inst_id < end; inst_id++) {
+    size_t name_size = decode_to_buffer(name_data, name_table[inst_id], InstStringifyOptions::kNone, string_table);
+    if (name_size == len && memcmp(s, name_data, len) == 0) {
+      return InstId(inst_id);
+    }
+  }
+
+  return BaseInst::kIdNone;
+}
 
 uint32_t find_alias(const char* s, size_t len, const uint32_t* name_table, const char* string_table, uint32_t alias_name_count) noexcept {
   ASMJIT_ASSERT(s != nullptr);
